@@ -3,7 +3,8 @@
    Spec/Rfc8785.v and Spec/JcsSpec.v.  Statements only; proofs are in Proofs/Jcs*.v. *)
 From Coq Require Import String NArith ZArith List Bool Sorted Permutation.
 From V Require Import Base.UString Base.Json Model.JcsText Model.Jcs Spec.Rfc8785 Spec.JcsSpec Spec.JsonParse
-  Proofs.JcsNumFacts Proofs.JcsEscFacts Proofs.JcsKeyFacts Proofs.JcsCanonFacts Proofs.JcsWsFacts Proofs.JcsParseFacts.
+  Spec.NumValue Proofs.JcsNumFacts Proofs.JcsEscFacts Proofs.JcsKeyFacts Proofs.JcsCanonFacts Proofs.JcsWsFacts Proofs.JcsParseFacts
+  Proofs.JcsNumValue Proofs.JcsNumRound.
 Import ListNotations.
 Open Scope N_scope.
 
@@ -128,3 +129,28 @@ Qed.
 Theorem canon_refuses_nonfinite : forall v, nonfinite v -> forall t, canon v <> JOk t.
 Proof. exact canon_refuses_nonfinite_proof. Qed.
 Print Assumptions canon_refuses_nonfinite.
+
+(* ---- numbers keep their value ------------------------------------------------------------- *)
+(* Spec/NumValue.v reads a JSON number text as (+/-) M * 10^E exactly.  The ECMAScript
+   text written for digits ds and exponent n denotes 0.d1...dk * 10^n ... *)
+Theorem es6_denotes : forall neg ds n, wf_digits ds -> denotes (es6_tostring neg ds n) neg ds n.
+Proof. exact es6_denotes_proof. Qed.
+Print Assumptions es6_denotes.
+
+(* ... and so does the repr text the converter starts from: the conversion preserves the number *)
+Theorem num_value_preserved : forall neg ds n, wf_digits ds ->
+  exists t, convert2es6 (py_repr neg ds n) = JOk t /\ denotes (py_repr neg ds n) neg ds n /\ denotes t neg ds n.
+Proof. exact num_value_preserved_proof. Qed.
+Print Assumptions num_value_preserved.
+
+(* the canonical text of a double is read back (Spec/JsonParse.v) as a number literal
+   that denotes the double's decimal value: "parses back to the same value" for numbers *)
+Theorem num_roundtrip : forall neg ds n, wf_digits ds ->
+  exists t, canon (JFloat (py_repr neg ds n)) = JOk t /\ parse_json t = Some (JFloat t) /\
+            denotes (py_repr neg ds n) neg ds n /\ denotes t neg ds n.
+Proof. exact num_roundtrip_proof. Qed.
+Print Assumptions num_roundtrip.
+
+Example denotes_example : denotes (u "1.5e+21") false [1; 5] 22 /\ denotes (u "1500") false [1; 5] 4 /\
+                          denotes (u "0.0000015") false [1; 5] (-5).
+Proof. repeat split; [exists O|exists 2%nat|exists O]; vm_compute; reflexivity. Qed.
